@@ -83,10 +83,10 @@ def families():
     qs.append(Q("safe_bump_vs_toprelease_none_sw3", ["C02"], "quick", "safe", "None", "S_E", ALLOC_FREE, DEALLOC_ALLOC, [14, 14], 3, 2, n1=(1, 24)))
     qs.append(Q("safe_bump_vs_toprelease_opt_sw3", ["C02"], "thorough", "safe", "Optimistic", "S_E", ALLOC_FREE, DEALLOC_ALLOC, [16, 18], 3, 2, n1=(1, 24), timeout=1800))
     # --- C07: no operation waits for ever
-    qs.append(Q("live_alloc_vs_dealloc_opt_sw2_d", ["C07"], "quick", "live", "Optimistic", "S_HN", ALLOC, DEALLOC, [22, 14], 2, 2, n1=(1, 8), role="waiter_after_pop"))
-    qs.append(Q("live_alloc_vs_dealloc_opt_sw3", ["C07"], "thorough", "live", "Optimistic", "S_HN", ALLOC, DEALLOC, [24, 16], 3, 1, n1=(1, 8), role="waiter_after_pop", timeout=2400))
-    qs.append(Q("live_alloc_vs_dealloc_pess_sw3", ["C07"], "thorough", "live", "Pessimistic", "S_HN", ALLOC, DEALLOC, [24, 16], 3, 1, n1=(1, 8), role="waiter_after_pop"))
-    qs.append(Q("live_alloc_vs_dealloc_opt_sw3_d", ["C07"], "thorough", "live", "Optimistic", "S_HN", ALLOC, DEALLOC, [24, 16], 3, 2, n1=(1, 8)))
+    qs.append(Q("live_alloc_vs_dealloc_opt_sw2_d", ["C07"], "quick", "live", "Optimistic", "S_HN", ALLOC, DEALLOC, [22, 14], 2, 2, n1=(1, 24), role="waiter_after_pop"))
+    qs.append(Q("live_alloc_vs_dealloc_opt_sw3", ["C07"], "thorough", "live", "Optimistic", "S_HN", ALLOC, DEALLOC, [24, 16], 3, 1, n1=(1, 24), role="waiter_after_pop", timeout=2400))
+    qs.append(Q("live_alloc_vs_dealloc_pess_sw3", ["C07"], "thorough", "live", "Pessimistic", "S_HN", ALLOC, DEALLOC, [24, 16], 3, 1, n1=(1, 24), role="waiter_after_pop"))
+    qs.append(Q("live_alloc_vs_dealloc_opt_sw3_d", ["C07"], "thorough", "live", "Optimistic", "S_HN", ALLOC, DEALLOC, [24, 16], 3, 2, n1=(1, 24)))
     qs.append(Q("live_alloc_vs_alloc_opt_sw2", ["C07"], "thorough", "live", "Optimistic", "S_2", ALLOC, ALLOC, [24, 24], 2, 1, n1=(1, 16), timeout=2400))
     qs.append(Q("live_bump_vs_toprelease_none_sw3", ["C07"], "quick", "live", "None", "S_E", ALLOC_FREE, DEALLOC_ALLOC, [14, 14], 3, 1, n1=(1, 24)))
     qs.append(Q("live_bump_none_sw2", ["C07"], "thorough", "live", "None", "S_E", ALLOC_FREE, DEALLOC_ALLOC, [14, 14], 2, 1))
@@ -386,7 +386,11 @@ def run(pid, tier, queries, scratch, logdir, known):
                     elif what == "race":
                         desc = "accesses to byte %d not ordered by happens-before" % cex.get("witness_byte", -1)
                     sample["counterexample"] = {"schedule": cex["schedule"], "args": cex["args"], "what": desc}
-                    if rcode == 1:
+                    died = rcode < 0 or rcode in (132, 134, 135, 136, 139)
+                    if died:
+                        desc += " [native run: the process died with %s]" % ("signal %d" % -rcode if rcode < 0 else "exit status %d" % rcode)
+                        sample["replay"]["died"] = True
+                    if rcode == 1 or died:
                         e = known_match(known, pid, q, cex)
                         if e:
                             line = "KNOWN-FINDING: property=%s %s" % (pid, e["what"])
